@@ -345,6 +345,11 @@ theorem memory_inv_resume (fr : Frame) (r : Req) (cr : CallRes) (hm : MemInv fr.
     · exact memInv_of_size hm (memWrite_size _ _ _ _) (memWrite_last _ _ _ _)
     · exact hm
   | create s v i gas => simpa [resume] using hm
+  | authcall au a v i gas ro rs =>
+    simp only [resume]
+    split
+    · exact memInv_of_size hm (memWrite_size _ _ _ _) (memWrite_last _ _ _ _)
+    · exact hm
 
 /-- non-vacuity: MSTORE at offset 0x1fffffffc0 on an empty memory is priced at the full
     Cmem(2^32−1) × 30 under Proposal026 (and then fails for lack of gas, as it must) -/
